@@ -2,7 +2,7 @@
 # tools/sweep.sh <tier> <seed...> : run every check for each seed, print one line per (check, seed). Evidence goes to /dev/null unless KEEP_EVIDENCE=1.
 TIER=${1:-quick}; shift
 SEEDS=${*:-0}
-cd /verif || exit 2
+cd "$(dirname "$0")/.." || exit 2
 for s in $SEEDS; do
   for p in C01 C02 C03 C04 C05 C06 C07 C08 C09 C10 C11 C12 C13 C14 C15 C16 C17 C18 C19 C20; do
     if [ -n "${KEEP_EVIDENCE:-}" ]; then
